@@ -190,7 +190,10 @@ impl GitVcs {
     fn get_all_tags_from_commit_hash(&self, commit_hash: &str) -> Result<Vec<String>> {
         // `git tag --points-at` succeeds with empty output when the commit has no tags,
         // so an error here is a real git failure and must not be mistaken for "no tags"
-        let tags_output = self.run_git_command(&["tag", "--points-at", commit_hash])?;
+        // --no-column: with `column.ui = always` (or `column.tag`) in the user's git configuration the
+        // tag names of one commit would otherwise arrive on a single line
+        let tags_output =
+            self.run_git_command(&["tag", "--no-column", "--points-at", commit_hash])?;
         Ok(tags_output
             .lines()
             .map(|line| line.trim().to_string())
